@@ -7,6 +7,7 @@
 //! Host assumptions (asserted by the harness): little-endian, 64-bit.
 
 pub mod ops;
+pub mod tree;
 pub mod values;
 
 use std::fmt;
@@ -533,8 +534,14 @@ pub enum EncodeErr {
 /// Encode `v` into a buffer of `n` bytes (spare and padding bytes are `fill`), canonical form
 /// (FlexVec: every item but the last sealed with its rounded extent, the last marked `MAX`).
 pub fn encode(d: &Desc, v: &Value, n: usize, fill: u8) -> Result<Image, EncodeErr> {
+    encode_opt(d, v, n, fill, false)
+}
+
+/// `zero_term`: FlexVec chains in their other documented form (every item sealed, a zero slot
+/// terminates) instead of the canonical "last item marked MAX".
+pub fn encode_opt(d: &Desc, v: &Value, n: usize, fill: u8, zero_term: bool) -> Result<Image, EncodeErr> {
     let mut img = Image { bytes: vec![fill; n], mask: vec![false; n], extent: 0 };
-    let ext = enc(d, v, &mut img, 0, n)?;
+    let ext = enc(d, v, &mut img, 0, n, zero_term)?;
     img.extent = ext;
     Ok(img)
 }
@@ -553,7 +560,7 @@ fn put_uint(img: &mut Image, at: usize, size: usize, v: u128, be: bool) {
 }
 
 /// Encode at `[at .. at+avail)`; returns the extent.
-fn enc(d: &Desc, v: &Value, img: &mut Image, at: usize, avail: usize) -> Result<usize, EncodeErr> {
+fn enc(d: &Desc, v: &Value, img: &mut Image, at: usize, avail: usize, zt: bool) -> Result<usize, EncodeErr> {
     if d.is_sized() {
         if avail < d.size() {
             return Err(EncodeErr::NoRoom);
@@ -591,7 +598,7 @@ fn enc(d: &Desc, v: &Value, img: &mut Image, at: usize, avail: usize) -> Result<
             Ok(ceil(off + s.len(), a))
         }
         (Desc::Struct { fields, .. }, Value::Struct(vals)) => {
-            let end = enc_fields(fields, vals, img, at, n)?;
+            let end = enc_fields(fields, vals, img, at, n, zt)?;
             Ok(ceil(end, a))
         }
         (Desc::Enum { tag, variants, .. }, Value::Enum(t, vals)) => {
@@ -600,7 +607,7 @@ fn enc(d: &Desc, v: &Value, img: &mut Image, at: usize, avail: usize) -> Result<
             if n - off < Desc::fields_min(&variants[*t]) {
                 return Err(EncodeErr::NoRoom);
             }
-            let end = enc_fields(&variants[*t], vals, img, at + off, n - off)?;
+            let end = enc_fields(&variants[*t], vals, img, at + off, n - off, zt)?;
             Ok(ceil(off + end, a))
         }
         (Desc::Flex { item, len }, Value::Flex(items)) => {
@@ -615,9 +622,9 @@ fn enc(d: &Desc, v: &Value, img: &mut Image, at: usize, avail: usize) -> Result<
                     return Err(EncodeErr::NoRoom);
                 }
                 let p = pos + os;
-                let e = enc(item, it, img, at + p, n - p)?;
+                let e = enc(item, it, img, at + p, n - p, zt)?;
                 let e = ceil(e, a);
-                if i + 1 == items.len() {
+                if i + 1 == items.len() && !zt {
                     put_uint(img, at + pos, len.size, len.max(), len.be);
                     return Ok(p + e);
                 }
@@ -628,13 +635,18 @@ fn enc(d: &Desc, v: &Value, img: &mut Image, at: usize, avail: usize) -> Result<
                 put_uint(img, at + pos, len.size, off, len.be);
                 pos += os + e;
             }
-            unreachable!()
+            // zero-terminated form
+            if n < pos + os {
+                return Err(EncodeErr::NoRoom);
+            }
+            put_uint(img, at + pos, len.size, 0, len.be);
+            Ok(pos + os)
         }
         _ => panic!("value {:?} does not match desc {:?}", v, d),
     }
 }
 
-fn enc_fields(fields: &[Desc], vals: &[Value], img: &mut Image, at: usize, avail: usize) -> Result<usize, EncodeErr> {
+fn enc_fields(fields: &[Desc], vals: &[Value], img: &mut Image, at: usize, avail: usize, zt: bool) -> Result<usize, EncodeErr> {
     assert_eq!(fields.len(), vals.len());
     let (offs, _) = c_offsets(fields);
     let mut end = 0;
@@ -650,7 +662,7 @@ fn enc_fields(fields: &[Desc], vals: &[Value], img: &mut Image, at: usize, avail
             if avail < o {
                 return Err(EncodeErr::NoRoom);
             }
-            end = o + enc(f, &vals[i], img, at + o, avail - o)?;
+            end = o + enc(f, &vals[i], img, at + o, avail - o, zt)?;
         }
     }
     Ok(end)
